@@ -9,7 +9,7 @@ use crate::engine::{self, Expansion, Unit};
 use crate::gen::{self, GenCfg};
 use crate::items;
 use crate::props::behave::{self, Behaviour, Env, Prepared};
-use crate::props::{c02, c03, c05, c06, c07, c08};
+use crate::props::{c02, c03, c05, c06, c07, c08, c09, c10};
 use crate::spec::*;
 
 const KEYWORDS: [&str; 52] = [
@@ -18,9 +18,9 @@ const KEYWORDS: [&str; 52] = [
     "dyn", "abstract", "become", "box", "do", "final", "macro", "override", "priv", "typeof", "unsized", "virtual", "yield", "try", "union",
 ];
 /// names the observers themselves use at module level
-const RESERVED: [&str; 30] = [
+const RESERVED: [&str; 32] = [
     "vals", "variant_of", "run", "fp", "same", "disc", "expected", "read", "obs", "o", "oracle_eq", "oracle_fields", "field_seqs", "check_clone", "Calls",
-    "RawKey", "Via", "OracleDbg", "Cell", "twin_vals", "hostile", "prelude", "educe", "Educe", "Out", "Key", "main", "core", "std", "alloc",
+    "RawKey", "Via", "OracleDbg", "Cell", "twin_vals", "addr_deref", "addr_deref_mut", "hostile", "prelude", "educe", "Educe", "Out", "Key", "main", "core", "std", "alloc",
 ];
 
 fn idents_of(ts: proc_macro2::TokenStream, out: &mut BTreeSet<String>) {
@@ -100,7 +100,7 @@ pub fn harvest(seed: u64) -> (Vec<String>, BTreeMap<String, BTreeSet<String>>, V
 }
 
 fn behaviours() -> Vec<Behaviour> {
-    vec![c02::behaviour(), c03::behaviour(), c05::behaviour(), c06::behaviour(), c07::behaviour(), c08::behaviour()]
+    vec![c02::behaviour(), c03::behaviour(), c05::behaviour(), c06::behaviour(), c07::behaviour(), c08::behaviour(), c09::behaviour(), c10::behaviour()]
 }
 
 struct Case {
@@ -115,6 +115,8 @@ fn prepare(dna: &[u16], pool: &[String], per: &BTreeMap<String, BTreeSet<String>
     let bs = behaviours();
     let b = &bs[d.pick(bs.len())];
     let env_kind = d.weighted(&[30, 25, 15, 30]);
+    // Into targets are user-written types spelled with prelude names (String, Option<..>): not inside the shadowing module
+    let env_kind = if b.prop == "C10" && (env_kind == 1 || env_kind == 2) { 0 } else { env_kind };
     let (env, env_name) = match env_kind {
         0 => (Env { names: Some(pool.to_vec()), shadow: false, derive_prefixes: vec![] }, "E3-internal-names"),
         1 => (Env { names: None, shadow: true, derive_prefixes: vec![] }, "E2-shadowed-prelude"),
@@ -159,8 +161,8 @@ pub fn run(ctx: &Ctx) -> i32 {
     }
     let mut rep = Report::new(
         ctx,
-        "the types and observers of C02, C03, C05, C06, C07 and C08 re-generated in hostile naming environments: (E3) every user identifier (fields, \
-         variants, lifetimes, type and const parameters, the type) drawn from the identifiers harvested in this run from educe's own output, (E2) inside a \
+        "the types and observers of C02, C03, C05, C06, C07, C08, C09 and C10 re-generated in hostile naming environments: (E3) every user identifier (fields, \
+         variants, lifetimes, type and const parameters, the type, and user functions used as `method = name`) drawn from the identifiers harvested in this run from educe's own output, (E2) inside a \
          module that defines items called Option, Some, None, Result, Ok, Err, Ordering, Clone, Default, Debug, ... core, std, and both; plus (E1) a \
          #![no_std] library lane; oracle: compiles warning-free and the behavioural observers report no disagreement (they pass in the neutral context in \
          their own checks); non-trivial = a user identifier coincides with an identifier of an educed trait's generated impl, or the shadowing module is used",
@@ -203,6 +205,10 @@ pub fn run(ctx: &Ctx) -> i32 {
         rep.class(&format!("observer_{}", c.prop));
         rep.count("runtime_checks", o.checks);
         rep.count("user_identifiers_hitting_generated_identifiers", c.hostile_hits as u64);
+        rep.count("method_functions_given_generated_names", c.p.spec.method_alias.len() as u64);
+        if !c.p.spec.method_alias.is_empty() {
+            rep.class("method_function_named_like_generated_identifier");
+        }
         if c.hostile_hits > 0 || c.env_name != "E3-internal-names" {
             // (derived-binding cases count when a field was actually renamed to prefix + sibling)
             rep.nontrivial.insert(fnv64(&c.p.unit.body));
